@@ -111,7 +111,12 @@ KeepChoices(mode, a, p, cur, mu, n, var) ==
 \* ("stop" = return now, "cont" = iterate again)
 Verdicts(mode, mub, varb, mua, vara, mcb, mca) ==
     LET db == RAbs(RSub(mub, R(mcb)))
-    IN  IF RIsZero(db) \/ RIsZero(varb) \/ RIsZero(vara) THEN {"stop"}
+    IN  \* the guards against 0/0: the relative change is undefined in the published algorithm; the code
+        \* returns.  Whether a difference of two exactly equal quantities (mean fn = mean-curve peak, all
+        \* peaks equal) is *computed* as zero is a rounding matter (mean(0.08, 0.06, 0.04) # 0.06 in
+        \* binary), so the P tier leaves the verdict open there, like every other exact tie.
+        IF RIsZero(db) \/ RIsZero(varb) \/ RIsZero(vara)
+        THEN (IF mode = "P" THEN {"stop", "cont"} ELSE {"stop"})
         ELSE
         LET da   == RAbs(RSub(mua, R(mca)))
             dd   == RDiv(RAbs(RSub(da, db)), db)
